@@ -256,13 +256,19 @@ func c05Diff(a, b c05State) []c05Change {
 
 // harness cacheUpdate with a fixed row order
 type c05Update struct {
-	rows []struct {
+	table string
+	rows  []struct {
 		uuid     string
 		old, new model.Model
 	}
 }
 
-func (u *c05Update) GetUpdatedTables() []string { return []string{"T"} }
+func (u *c05Update) GetUpdatedTables() []string {
+	if u.table != "" {
+		return []string{u.table}
+	}
+	return []string{"T"}
+}
 func (u *c05Update) ForEachModelUpdate(table string, do func(uuid string, old, new model.Model) error) error {
 	for _, r := range u.rows {
 		if err := do(r.uuid, r.old, r.new); err != nil {
